@@ -511,6 +511,10 @@ def run(ctx):
     check_testproblems(ctx, cuqi, rng, thorough)
     from harness.props.c18_testproblems import check_testproblem_models
     check_testproblem_models(ctx, cuqi, rng, thorough)
+    from harness.props.c18_history import check_object_histories
+    check_object_histories(ctx, cuqi, rng, 40 * S)
+    from harness.props.c18_shapes import check_shapes
+    check_shapes(ctx, cuqi, rng)
 
 
 # ----------------------------------------------------------------------------------------------- A. time stepping
